@@ -163,7 +163,7 @@ pub fn run(args: &Args) {
         20,
     );
     let miri = cfg!(miri);
-    let n = if miri { args.n(40, 300) } else { args.n(4_000, 150_000) };
+    let n = if miri { args.n(40, 300) } else { args.n(20_000, 300_000) };
     for i in 0..n {
         let mut rng = Rng::fork(args.seed, i);
         let f = gen_fields(&mut rng);
